@@ -279,8 +279,12 @@ func makeIterator(value any) iterable {
 		rv := reflect.ValueOf(value)
 		array := make([][]any, rv.Len())
 		for i, k := range values.SortedMapKeys(rv) {
-			v := rv.MapIndex(k)
-			array[i] = []any{k.Interface(), v.Interface()}
+			// a NaN key is in the map and never found there
+			var elem any
+			if v := rv.MapIndex(k); v.IsValid() {
+				elem = v.Interface()
+			}
+			array[i] = []any{k.Interface(), elem}
 		}
 		return sliceWrapper(reflect.ValueOf(array))
 	default:
